@@ -348,6 +348,34 @@ func factsC03(r *Repo) []Fact {
 		}
 		out = append(out, boolFact("waitDispatch", ok, "compose/"+file+": taskManager.wait = waitAll if needAll else one waitOne"))
 	}
+
+	// ---- waitAll: for { ta, ok := waitOne(); if !ok { return result, nil }; result = append(result, ta) } ----
+	if fd, file := cp.Func("taskManager", "waitAll"); fd == nil || fd.Body == nil {
+		out = append(out, unknownFact("waitAllLoops", "Bool", "false", "compose", "taskManager.waitAll not found"))
+	} else {
+		rv := c03Recv(fd)
+		st := c03Stmts(fd.Body)
+		ok := false
+		if len(st) == 2 {
+			if fs, isFor := st[1].(*ast.ForStmt); isFor && fs.Cond == nil && fs.Init == nil && fs.Post == nil {
+				b := c03Stmts(fs.Body)
+				if len(b) == 3 {
+					as, isAs := b[0].(*ast.AssignStmt)
+					is, isIf := b[1].(*ast.IfStmt)
+					if isAs && isIf && len(as.Lhs) == 2 && len(as.Rhs) == 1 && exprString(as.Rhs[0]) == rv+".waitOne()" {
+						ta, succ := exprString(as.Lhs[0]), exprString(as.Lhs[1])
+						res := c03StmtString(b[2])
+						if exprString(is.Cond) == "!"+succ && is.Else == nil && len(is.Body.List) == 1 &&
+							strings.HasPrefix(c03StmtString(is.Body.List[0]), "return ") &&
+							strings.HasSuffix(res, "=append("+strings.SplitN(res, "=", 2)[0]+","+ta+")") {
+							ok = !containsReturn(b[0]) && !containsReturn(b[2])
+						}
+					}
+				}
+			}
+		}
+		out = append(out, boolFact("waitAllLoops", ok, "compose/"+file+": taskManager.waitAll loops waitOne until it reports false, returning only there"))
+	}
 	return out
 }
 
